@@ -12,7 +12,13 @@ package netmc
 // keep-alive packets numbered 1.. in scripted read chunks, then optionally ends
 // the stream with EOF / reset / a malformed frame); the other actors issue
 // Close / CloseUnknown / CloseWith, the write calls, break the write side of the
-// fake conn, switch the active session handler, and pause/resume auto reading.
+// fake conn, switch the active session handler, pause/resume auto reading, and
+// cancel the PARENT context that was given to NewMinecraftConn (listener / proxy
+// shutdown, tunnelled conns whose own context ends first). Parent cancellation
+// makes Closed(conn) true without any teardown having run: the write calls and
+// CloseWith return ErrClosedConn at once, the read loop ends by itself at its
+// next loop condition (not while it is blocked in Read) - so a later close cause
+// (or the read loop's own deferred close) still has to run the teardown.
 // A handler script makes HandlePacket panic (several panic kinds), close the
 // connection, write, or switch the handler at given packet numbers. A schedule
 // script ("order") runs the first ops strictly in order, the rest free from a
@@ -21,9 +27,17 @@ package netmc
 // Oracle (model from the case only; "known before" = ordered by the script or by
 // one actor's program order):
 //   - Disconnected() ran exactly once in total when everything has returned and
-//     the read loop has ended; on the handler that was active if the script
-//     fixes that;
-//   - a write call known to start after a completed close returns ErrClosedConn;
+//     the read loop has ended (every scenario ends with a Close call, so a close
+//     cause has completed: never zero); on the handler that was active if the
+//     script fixes that; the underlying net.Conn was closed by the connection;
+//   - when Close / CloseUnknown returns (also from a handler) or the read loop
+//     has ended, the teardown is complete: Disconnected() ran and the net.Conn is
+//     closed (both go through closeKnown -> sync.Once, which blocks concurrent
+//     callers until the one teardown returned; interface doc of Close). NOT
+//     assumed for CloseWith or a write returning ErrClosedConn: those return as
+//     soon as the context is cancelled;
+//   - a write call known to start after a completed close or after the parent
+//     context was cancelled returns ErrClosedConn;
 //     a write call that returns an error leaves the connection closed;
 //   - packets are handled in feed order, each once; every packet fed before any
 //     possible close cause started has been handled - in particular packets after
@@ -56,7 +70,7 @@ import (
 type c44Op struct {
 	// peer (actor 0): "feed" | "end"
 	// others: "close" | "closeUnknown" | "closeWith" | "write" | "buffer" | "flush" |
-	//         "writePayload" | "bufferPayload" | "break" | "switch" | "pause"
+	//         "writePayload" | "bufferPayload" | "break" | "switch" | "pause" | "cancelParent"
 	Kind  string `json:"kind"`
 	N     int    `json:"n,omitempty"`     // feed: packets in this burst
 	Chunk int    `json:"chunk,omitempty"` // feed: max bytes per Read call from now on (0 = unlimited)
@@ -151,6 +165,12 @@ func (c *c44Conn) Close() error {
 	return nil
 }
 
+func (c *c44Conn) isClosed() bool {
+	c.mu.Lock()
+	defer c.mu.Unlock()
+	return c.closed
+}
+
 func (c *c44Conn) feed(b []byte, chunk int) {
 	c.mu.Lock()
 	c.rbuf = append(c.rbuf, b...)
@@ -233,7 +253,7 @@ func c44IsWrite(k string) bool {
 func c44IsPanic(k string) bool { return strings.HasPrefix(k, "panic") }
 
 func c44Valid(c c44Case) error {
-	if len(c.Actors) < 1 || len(c.Actors) > 9 || c.Reps < 1 || c.Reps > 1000 {
+	if len(c.Actors) < 1 || len(c.Actors) > 10 || c.Reps < 1 || c.Reps > 1000 {
 		return fmt.Errorf("sizes")
 	}
 	fed := 0
@@ -252,7 +272,7 @@ func c44Valid(c c44Case) error {
 				if i != len(ops)-1 || (op.Arg != "eof" && op.Arg != "reset" && op.Arg != "badframe") {
 					return fmt.Errorf("end")
 				}
-			case a > 0 && (c44IsClose(op.Kind) || c44IsWrite(op.Kind) || op.Kind == "switch" || op.Kind == "pause"):
+			case a > 0 && (c44IsClose(op.Kind) || c44IsWrite(op.Kind) || op.Kind == "switch" || op.Kind == "pause" || op.Kind == "cancelParent"):
 			case a > 0 && op.Kind == "break":
 				if op.Arg != "reset" && op.Arg != "epipe" && op.Arg != "deadline" {
 					return fmt.Errorf("break")
@@ -369,8 +389,38 @@ func c44BuildModel(c c44Case) *c44Model {
 		return false
 	}
 	_ = hasBreak
-	// potential close causes, and those that certainly leave the connection closed on return
-	var causes, definite []c44Node
+	// parent context cancellations
+	var parents []c44Node
+	for a, ops := range c.Actors {
+		for i, op := range ops {
+			if op.Kind == "cancelParent" {
+				parents = append(parents, node(a, i))
+			}
+		}
+	}
+	// certainlyBeforeParents: n returns before any parent cancellation starts
+	certainlyBeforeParents := func(n c44Node) bool {
+		for _, p := range parents {
+			if !c44KB(n, p) {
+				return false
+			}
+		}
+		return true
+	}
+	// causes: everything after whose start the teardown may begin (a parent
+	// cancellation is one: the read loop ends by itself at its next loop condition);
+	// definite: on return the connection reports closed (context cancelled);
+	// tornDown: on return the teardown has completed, whoever ran it: Close,
+	// CloseUnknown and the read loop's deferred close go through the once and block
+	// until it returned. CloseWith returns early when the context is already
+	// cancelled - by a teardown in progress (then that cause is another node) or by
+	// the parent (then nothing may have run at all), so it only counts when no
+	// parent cancellation can precede it.
+	var causes, definite, tornDown []c44Node
+	for _, p := range parents {
+		causes = append(causes, p)
+		definite = append(definite, p)
+	}
 	for a, ops := range c.Actors {
 		for i, op := range ops {
 			n := node(a, i)
@@ -378,9 +428,13 @@ func c44BuildModel(c c44Case) *c44Model {
 			case c44IsClose(op.Kind):
 				causes = append(causes, n)
 				definite = append(definite, n)
+				if op.Kind != "closeWith" || certainlyBeforeParents(n) {
+					tornDown = append(tornDown, n)
+				}
 			case op.Kind == "end":
 				causes = append(causes, n)
 				definite = append(definite, n) // the op waits for the read loop to end
+				tornDown = append(tornDown, n)
 			case c44IsWrite(op.Kind):
 				if canFail(n) {
 					causes = append(causes, n)
@@ -396,6 +450,9 @@ func c44BuildModel(c c44Case) *c44Model {
 			causes = append(causes, n)
 			if !n.detached {
 				definite = append(definite, n) // the feed op returns after packet seq was handled or the loop ended
+				if act != "closeWith" || certainlyBeforeParents(n) {
+					tornDown = append(tornDown, n)
+				}
 			}
 		case act == "write":
 			if canFail(n) {
@@ -477,9 +534,10 @@ func c44BuildModel(c c44Case) *c44Model {
 		// as soon as another cause has cancelled the context, while that other
 		// cause may still be on its way to read the active handler. So the handler
 		// is only fixed to the first one when some definite cause precedes the
-		// switch AND every possible cause does.
+		// switch AND every possible cause does. With a parent cancellation a
+		// returning CloseWith does not even prove that a teardown started (tornDown).
 		after := false
-		for _, x := range definite {
+		for _, x := range tornDown {
 			if c44KB(x, *sw) {
 				after = true
 			}
@@ -508,10 +566,70 @@ func c44BuildModel(c c44Case) *c44Model {
 			}
 		}
 	}
-	m.nontrivial = overlap
+	// a parent cancellation puts every close cause that is not known to come before
+	// it on the "context already cancelled, teardown still owed" path
+	m.nontrivial = overlap || len(parents) > 0
 	kinds := map[string]bool{}
+	causeKind := func(x c44Node) string {
+		switch {
+		case x.seq > 0 && c44IsClose(x.kind):
+			return "handler-close"
+		case x.seq > 0:
+			return "handler-write-error"
+		case x.kind == "end":
+			return "read-end"
+		case c44IsClose(x.kind) || x.kind == "cancelParent":
+			return x.kind
+		}
+		return "write-error"
+	}
+	if len(parents) > 0 {
+		first, afterTeardown := true, false
+		for _, p := range parents {
+			for _, x := range causes {
+				if x.kind == "cancelParent" {
+					continue
+				}
+				if !c44KB(p, x) {
+					first = false
+				} else {
+					m.labels = append(m.labels, "parent-cancel:known-before:"+causeKind(x))
+				}
+			}
+			for _, x := range tornDown {
+				if c44KB(x, p) {
+					afterTeardown = true
+				}
+			}
+		}
+		switch {
+		case len(causes) == len(parents):
+			m.labels = append(m.labels, "parent-cancel:only-cause(final close owes the teardown)")
+		case first:
+			m.labels = append(m.labels, "parent-cancel:known-before-every-other-cause")
+		case afterTeardown:
+			m.labels = append(m.labels, "parent-cancel:after-a-completed-teardown")
+		default:
+			m.labels = append(m.labels, "parent-cancel:can-overlap-other-causes")
+		}
+		for k := range m.mustClosed {
+			w := node(k[0], k[1])
+			only := true
+			for _, x := range definite {
+				if x.kind != "cancelParent" && c44KB(x, w) {
+					only = false
+				}
+			}
+			if only {
+				m.labels = append(m.labels, "write-after-parent-cancel-only")
+				break
+			}
+		}
+	}
 	for _, x := range causes {
 		switch {
+		case x.kind == "cancelParent":
+			kinds["cause:parent-cancel"] = true
 		case x.seq > 0 && c44IsClose(x.kind):
 			kinds["cause:handler-close"] = true
 		case x.seq > 0:
@@ -576,6 +694,13 @@ func c44BuildModel(c c44Case) *c44Model {
 		m.labels = append(m.labels, "mode:partial")
 	}
 	sort.Strings(m.labels)
+	uniq := m.labels[:0]
+	for i, l := range m.labels {
+		if i == 0 || l != m.labels[i-1] {
+			uniq = append(uniq, l)
+		}
+	}
+	m.labels = uniq
 	return m
 }
 
@@ -603,10 +728,26 @@ type c44Env struct {
 	gate     []chan struct{}
 	wg       sync.WaitGroup
 	flagged  atomic.Pointer[verifkit.Violation]
+
+	cancelParent context.CancelFunc                 // cancels the context given to NewMinecraftConn
+	early        atomic.Pointer[verifkit.Violation] // a close cause returned before the teardown was complete
+	leftOpen     bool                               // the final Close returned with the net.Conn still open
 }
 
 func (e *c44Env) flag(key, format string, args ...any) {
 	e.flagged.CompareAndSwap(nil, verifkit.Violationf(key, format, args...))
+}
+
+// c44AfterClose is called when a close cause that goes through closeKnown has
+// returned (Close, CloseUnknown, the read loop's deferred close): the once has
+// completed, so Disconnected() ran and the net.Conn is closed - whoever did it.
+func (e *c44Env) c44AfterClose(site string) {
+	d := int(e.h1.disconnected.Load()) + int(e.h2.disconnected.Load())
+	open := !e.fake.isClosed()
+	if d == 0 || open {
+		e.early.CompareAndSwap(nil, verifkit.Violationf("teardown-not-complete-on-return:"+site,
+			"%s returned but the teardown is not complete: Disconnected() ran %d times, net.Conn closed=%v (rep %d)", site, d, !open, e.rep))
+	}
 }
 
 func (h *c44Handler) Activated()   {}
@@ -654,8 +795,10 @@ func (h *c44Handler) HandlePacket(pc *proto.PacketContext) {
 		panic(nil)
 	case "close":
 		_ = e.conn.Close()
+		e.c44AfterClose("Close(handler)")
 	case "closeUnknown":
 		_ = CloseUnknown(e.conn)
+		e.c44AfterClose("CloseUnknown(handler)")
 	case "closeWith":
 		_ = CloseWith(e.conn, &packet.KeepAlive{RandomID: 9000})
 	case "switch":
@@ -749,11 +892,17 @@ func (e *c44Env) c44Exec(a, i int, op c44Op, closedSeen *bool, nextSeq int) int 
 			e.fake.feed([]byte{0xff, 0xff, 0xff, 0xff, 0x0f, 1, 2, 3}, 0)
 		}
 		<-e.loopDone
+		e.c44AfterClose("startReadLoop")
 	case "close":
 		_ = e.conn.Close()
+		e.c44AfterClose("Close")
 		*closedSeen = true
 	case "closeUnknown":
 		_ = CloseUnknown(e.conn)
+		e.c44AfterClose("CloseUnknown")
+		*closedSeen = true
+	case "cancelParent":
+		e.cancelParent()
 		*closedSeen = true
 	case "closeWith":
 		_ = CloseWith(e.conn, &packet.KeepAlive{RandomID: 9002})
@@ -802,8 +951,11 @@ func (e *c44Env) c44Loop(startReadLoop func()) {
 func c44RunOnce(c c44Case, m *c44Model, rep int) (v *verifkit.Violation, inconclusive bool) {
 	e := c44NewEnv(c, m, rep)
 	var finished atomic.Bool
+	parent, cancelParent := context.WithCancel(context.Background())
+	defer cancelParent()
+	e.cancelParent = cancelParent
 	w := verifkit.Watch(5*time.Second, "", func() {
-		conn, startReadLoop := NewMinecraftConn(context.Background(), e.fake, proto.ServerBound, time.Hour, time.Hour, -1, nil)
+		conn, startReadLoop := NewMinecraftConn(parent, e.fake, proto.ServerBound, time.Hour, time.Hour, -1, nil)
 		e.conn = conn
 		conn.SetProtocol(c44Protocol)
 		conn.SetActiveSessionHandler(state.Play, e.h1)
@@ -815,6 +967,13 @@ func c44RunOnce(c c44Case, m *c44Model, rep int) (v *verifkit.Violation, inconcl
 		close(e.start)
 		e.wg.Wait()
 		_ = conn.Close() // final close: every scenario ends closed
+		e.c44AfterClose("Close")
+		if !e.fake.isClosed() {
+			// the teardown never closed the net.Conn; release a read loop that may
+			// be blocked in Read so that the case can end
+			e.leftOpen = true
+			_ = e.fake.Close()
+		}
 		<-e.loopDone
 		finished.Store(true)
 	})
@@ -879,6 +1038,12 @@ func c44Judge(e *c44Env) *verifkit.Violation {
 	}
 	if m.wantHandler == 1 && d1 != 1 || m.wantHandler == 2 && d2 != 1 {
 		return verifkit.Violationf("teardown-wrong-handler:Disconnected", "Disconnected() ran on handler %d, the script fixes handler %d as the active one at close time (rep %d)", 1+d2, m.wantHandler, e.rep)
+	}
+	if e.leftOpen {
+		return verifkit.Violationf("teardown-missing:netConn-not-closed", "the final Close returned but the underlying net.Conn was never closed (rep %d)", e.rep)
+	}
+	if v := e.early.Load(); v != nil {
+		return v
 	}
 	if !Closed(e.conn) {
 		return verifkit.Violationf("not-closed", "connection not closed after Close returned (rep %d)", e.rep)
@@ -991,6 +1156,27 @@ func c44Gen(t *rapid.T) c44Case {
 		}
 		c.Actors = append(c.Actors, ops)
 	}
+	// parent context cancellation: one op in some actor; "first" = scripted in front
+	// of every other scripted op (before all causes when the schedule is serial),
+	// otherwise at a generated place, ordered or free like any other op
+	parentActor := -1
+	if !panicFocus && rapid.IntRange(0, 2).Draw(t, "parentCancel") == 0 {
+		if nActors == 0 || rapid.IntRange(0, 2).Draw(t, "parentCancelOwnActor") == 0 {
+			c.Actors = append(c.Actors, nil)
+			nActors++
+		}
+		a := rapid.IntRange(1, nActors).Draw(t, "parentCancelActor")
+		op := c44Op{Kind: "cancelParent", Yield: rapid.IntRange(0, 3).Draw(t, "yield")}
+		if rapid.IntRange(0, 1).Draw(t, "parentCancelFirst") == 0 {
+			parentActor = a
+			c.Actors[a] = append([]c44Op{op}, c.Actors[a]...)
+		} else {
+			at := rapid.IntRange(0, len(c.Actors[a])).Draw(t, "parentCancelAt")
+			ops := append([]c44Op(nil), c.Actors[a][:at]...)
+			ops = append(ops, op)
+			c.Actors[a] = append(ops, c.Actors[a][at:]...)
+		}
+	}
 	// handler script
 	for seq := 1; seq <= fed; seq++ {
 		if rapid.IntRange(0, 2).Draw(t, "hasAction") == 0 {
@@ -1013,6 +1199,9 @@ func c44Gen(t *rapid.T) c44Case {
 		remaining[a] = len(ops)
 	}
 	mode := rapid.SampledFrom([]string{"free", "free", "partial", "serial"}).Draw(t, "mode")
+	if parentActor >= 0 && mode == "free" {
+		mode = rapid.SampledFrom([]string{"partial", "serial"}).Draw(t, "modeParentFirst")
+	}
 	scripted := 0
 	switch mode {
 	case "serial":
@@ -1020,6 +1209,13 @@ func c44Gen(t *rapid.T) c44Case {
 	case "partial":
 		if total > 1 {
 			scripted = rapid.IntRange(1, total-1).Draw(t, "scripted")
+		}
+	}
+	if parentActor >= 0 {
+		c.Order = append(c.Order, parentActor)
+		remaining[parentActor]--
+		if scripted < 1 {
+			scripted = 1
 		}
 	}
 	for len(c.Order) < scripted {
@@ -1046,6 +1242,6 @@ func c44Gen(t *rapid.T) c44Case {
 
 func TestVerif_C44(t *testing.T) {
 	verifkit.Check(t, "C44", "teardown",
-		"scenario = real NewMinecraftConn over a fault-injecting fake net.Conn and counting SessionHandlers; peer actor feeds numbered keep-alive packets in scripted read chunks and may end the stream (EOF / reset / malformed frame); 0-8 further actors x 1-4 ops over {Close, CloseUnknown, CloseWith, WritePacket, BufferPacket, Flush, Write, BufferPayload, break the write side, switch handler, pause+resume auto reading}; handler script per packet {5 panic kinds, Close/CloseUnknown/CloseWith, write, switch}; schedule = scripted prefix in exact order + free rest from a barrier, repeated Reps times with Gosched noise; oracle = Disconnected exactly once (on the scripted-active handler when fixed), ErrClosedConn for writes known to start after a completed close, failed writes leave the connection closed, packets handled in order once and every packet fed before any possible close cause handled (also after panics), no panic leaves startReadLoop, read loop ends, no deadlock; non-trivial = at least two close causes that the script does not order (can overlap)",
+		"scenario = real NewMinecraftConn over a fault-injecting fake net.Conn and counting SessionHandlers; peer actor feeds numbered keep-alive packets in scripted read chunks and may end the stream (EOF / reset / malformed frame); 0-8 further actors x 1-4 ops over {Close, CloseUnknown, CloseWith, WritePacket, BufferPacket, Flush, Write, BufferPayload, break the write side, switch handler, pause+resume auto reading}, in 1/3 of the mixed scenarios one op cancels the PARENT context given to NewMinecraftConn (half of them scripted in front of every other scripted op); handler script per packet {5 panic kinds, Close/CloseUnknown/CloseWith, write, switch}; schedule = scripted prefix in exact order + free rest from a barrier, repeated Reps times with Gosched noise; oracle = Disconnected exactly once and never zero after the final Close (on the scripted-active handler when fixed), the net.Conn closed by the connection, teardown complete whenever Close / CloseUnknown returned or the read loop ended, ErrClosedConn for writes known to start after a completed close or a parent cancellation, failed writes leave the connection closed, packets handled in order once and every packet fed before any possible close cause handled (also after panics), no panic leaves startReadLoop, read loop ends, no deadlock; non-trivial = at least two close causes that the script does not order (can overlap), or a parent-context cancellation (later close causes find the context already cancelled and still owe the teardown)",
 		c44Gen, c44Run)
 }
